@@ -6,6 +6,7 @@ package main
 // Script operations
 //
 //	new <max>                          NewWebsocketStream(RoleClient); SetMaxMessageSize(max); VerifAttach(memStream)
+//	setmax <max>                       SetMaxMessageSize(max) on the live stream
 //	plan <n>...                        partial-write behaviour of the transport: the next writes accept at most n bytes each
 //	defer <0|1>                        asynchronous transport writes complete only on "pump"
 //	write <text|binary> <hex>          Stream.Write(payload, type)
@@ -130,6 +131,14 @@ func wswriteGen(r *rng, maxops int, w *bufio.Writer) {
 		pre := ""
 		if async {
 			pre = "a"
+		}
+		if r.intn(12) == 0 {
+			// the maximum is changed on the live stream: lowered below / raised above the sizes written so far
+			max = r.pick(max/2, max+37, 125, 126, 300, max-1, max+1)
+			if max < 0 {
+				max = 0
+			}
+			fmt.Fprintf(w, "! setmax %d\n", max)
 		}
 		switch r.intn(10) {
 		case 0, 1, 2, 3:
@@ -320,6 +329,8 @@ func wswriteRun(script []string, w *bufio.Writer) {
 					panic(err)
 				}
 				outBefore, segBefore = 0, 0
+			case "setmax":
+				s.SetMaxMessageSize(atoi(f[1]))
 			case "plan":
 				ms.writePlan = ms.writePlan[:0]
 				for _, a := range f[1:] {
